@@ -3,9 +3,9 @@
    with Print Assumptions beneath.  Vectors are lists over Q, a matrix is the list of its rows;
    every statement is for all shapes (any number of rows, any row lengths). *)
 Require Import Cherab.Common.Qx.
-Require Import Cherab.Model.C11_Sart Cherab.Model.C11_Kkt Cherab.Model.C11_Check.
-Require Import Cherab.Proofs.C11_Sart Cherab.Proofs.C11_Kkt Cherab.Proofs.C11_Check.
-From Coq Require Import Qabs.
+Require Import Cherab.Model.C11_Sart Cherab.Model.C11_Kkt Cherab.Model.C11_Check Cherab.Model.C11_Round.
+Require Import Cherab.Proofs.C11_Sart Cherab.Proofs.C11_Kkt Cherab.Proofs.C11_Check Cherab.Proofs.C11_More Cherab.Proofs.C11_Round.
+From Coq Require Import Qabs Lqa.
 Open Scope Q_scope.
 
 (* --- SART ----------------------------------------------------------------------------------- *)
@@ -196,6 +196,88 @@ Theorem C11_svd_output_certificate_sound :
     obj W b x - 2 * (rel * grad_scale W b x) * Qsum (map Qabs (vsub y x)) <= obj W b y.
 Proof. exact check_svd_sound. Qed.
 Print Assumptions C11_svd_output_certificate_sound.
+
+(* --- added in the deepening round ---------------------------------------------------------------- *)
+
+(* SCALE COVARIANCE (until now only tested by the search): geometry matrix and measurements multiplied by the same
+   s > 0 give the same solution, the same convergence list and the same number of sweeps - one sweep, the
+   convergence value, and the whole inversion *)
+Theorem C11_sart_sweep_scale_covariant :
+  forall s relax W b x, 0 < s ->
+  Forall2 Qeq (sart_step relax (smat s W) (scale_row s b) x) (sart_step relax W b x)
+  /\ conv (smat s W) (scale_row s b) x == conv W b x.
+Proof. intros; split; [apply sart_step_scale; assumption | apply conv_scale; lra]. Qed.
+Print Assumptions C11_sart_sweep_scale_covariant.
+
+Theorem C11_sart_inversion_scale_covariant :
+  forall s e1 n W b g maxit relax tol, 0 < s ->
+  result_eq (invert_sart e1 n (smat s W) (scale_row s b) g maxit relax tol) (invert_sart e1 n W b g maxit relax tol).
+Proof. exact invert_sart_scale. Qed.
+Print Assumptions C11_sart_inversion_scale_covariant.
+
+(* the sweep respects equality of rationals in the iterate (needed to compose sweeps; Qeq is not Leibniz equality) *)
+Theorem C11_sart_sweep_respects_equal_iterates :
+  forall relax W b x y, Forall2 Qeq x y -> Forall2 Qeq (sart_step relax W b x) (sart_step relax W b y).
+Proof. exact sart_step_proper. Qed.
+Print Assumptions C11_sart_sweep_respects_equal_iterates.
+
+(* the constrained solver with beta_laplace = 0 makes the sweeps of the plain solver *)
+Theorem C11_csart_beta_zero_is_sart :
+  forall relax beta W L b x, beta == 0 -> Forall2 Qeq (csart_step relax beta W L b x) (sart_step relax W b x).
+Proof. exact csart_beta_zero. Qed.
+Print Assumptions C11_csart_beta_zero_is_sart.
+
+(* started at an exact non-negative solution with a positive tolerance, exactly two sweeps are made *)
+Theorem C11_sart_exact_start_makes_two_sweeps :
+  forall e1 n W b xs maxit relax tol x cs,
+  Forall2 Qeq (mv W xs) b -> Forall (Qle 0) xs -> 0 < tol -> (2 <= maxit)%Z ->
+  invert_sart e1 n W b (GuessVec xs) maxit relax tol = Ok x cs -> length cs = 2%nat.
+Proof. exact sart_exact_start_two_sweeps. Qed.
+Print Assumptions C11_sart_exact_start_makes_two_sweeps.
+
+(* the stopping rule that the correspondence replays EXACTLY on the implementation's own convergence values (with
+   the binary64 rounding model for the one subtraction) is the model's rule: without rounding, every convergence
+   list the model produces passes the replay *)
+Theorem C11_stop_replay_is_the_model_rule :
+  forall step W b x0 maxit tol x cs,
+  run_with step W b x0 maxit tol = Ok x cs -> stop_replay no_rounding maxit tol cs = true.
+Proof. exact run_with_passes_replay. Qed.
+Print Assumptions C11_stop_replay_is_the_model_rule.
+
+(* exact certificates: eps = 0 gives exact global minimisers (over x >= 0 for KKT) *)
+Theorem C11_exact_certificates_give_exact_minimisers :
+  forall C d x, length d = length C -> Forall (fun c => length c = length x) C ->
+  (eps_kkt C d x 0 0 = true ->
+     Forall (Qle 0) x /\ forall y, length y = length x -> Forall (Qle 0) y -> obj C d x <= obj C d y)
+  /\ (eps_normal_eq C d x 0 = true -> forall y, length y = length x -> obj C d x <= obj C d y).
+Proof. intros C d x Hd HC; split; [apply kkt_exact_minimiser | apply normal_eq_exact_minimiser]; assumption. Qed.
+Print Assumptions C11_exact_certificates_give_exact_minimisers.
+
+(* the LSQ wrapper: for ANY solver returning a least-squares minimiser the wrapper returns a minimiser of the Tikhonov
+   objective *)
+Theorem C11_lstsq_wrapper_returns_tikhonov_minimiser :
+  forall (solver : mat -> vec -> vec) n W b alpha L,
+  (forall C d, length (solver C d) = n /\ forall y, length y = n -> obj C d (solver C d) <= obj C d y) ->
+  length b = length W -> length (tikhonov_or_identity n L) = n ->
+  let x := invert_regularised_lstsq solver n W b alpha L in
+  forall y, length y = n ->
+  tikhonov_objective W b alpha (tikhonov_or_identity n L) x <= tikhonov_objective W b alpha (tikhonov_or_identity n L) y.
+Proof. exact lstsq_wrapper_correct. Qed.
+Print Assumptions C11_lstsq_wrapper_returns_tikhonov_minimiser.
+
+(* the NNLS wrapper fails exactly when max([b; 0]) = 0, that maximum is never negative, and the reported norm is
+   non-negative whenever the solver's is *)
+Theorem C11_nnls_wrapper_error_and_norm_sign :
+  forall (solver : mat -> vec -> vec * Q) n W b alpha L,
+  (invert_regularised_nnls solver n W b alpha L = LsErrValue <-> vmax (stackd b n) == 0)
+  /\ ((1 <= n)%nat -> 0 <= vmax (stackd b n))
+  /\ ((forall C d, 0 <= snd (solver C d)) -> (1 <= n)%nat ->
+      forall x rn, invert_regularised_nnls solver n W b alpha L = LsOk x rn -> 0 <= rn).
+Proof.
+  intros; split; [apply nnls_wrapper_error | split; [apply vmax_stack_nonneg |]].
+  intros Hs Hn x rn H. eapply nnls_wrapper_rnorm_nonneg; eassumption.
+Qed.
+Print Assumptions C11_nnls_wrapper_error_and_norm_sign.
 
 (* non-vacuity: a 2x2 system whose exact solution satisfies the hypotheses of the fixed-point theorem,
    and a point that passes the exact KKT certificate *)
